@@ -15,7 +15,7 @@ MS_ALGS = ["FDD_MS", "EFDD_MS", "SSIcov_MS", "SSIdat_MS", "pLSCF_MS"]
 TRANSF = ["gain", "gain_pow2", "perm", "mix", "time", "time_pow2"]
 REQUIRED_MONITORS = [f"{t}@{a}" for a in SS_ALGS for t in ("gain", "perm", "mix", "time")] + [f"{t}@{a}" for a in MS_ALGS for t in ("gain", "perm", "time")] + ["unit-normalisation"]
 ALL_STATES = ["method_SD=per", "method_SD=cor", "ref_ind subset", "free decay + noise", "white noise", "random response", "default hard criteria", "neutral MPC/MPD"]
-REQUIRED_STATES = ["method_SD=per", "method_SD=cor", "ref_ind subset", "free decay + noise", "white noise", "random response", "base record of integer type"]
+REQUIRED_STATES = ["method_SD=per", "method_SD=cor", "ref_ind subset", "free decay + noise", "white noise", "random response", "base record of integer type", "picks and band limits exactly on spectral lines (time-unit clause)", "integer-typed picks (time-unit clause)"]
 RULE = ("two (three) executions of the real algorithm through a setup on related inputs: base, transformed (gain 10^U(-6,6) or 2^k, channel permutation "
         "with ref_ind mapped, orthogonal mixing, time unit k in 10^U(-2,2) or 2^k) and a rounding probe (data * (1 + 1e-15 noise)); whole pole tables "
         "compared column by column as multisets of (f, xi, shape up to conjugation), NaN counts equal, extracted Fn/Xi/Phi and the frequency grid; a "
@@ -114,7 +114,9 @@ def do_mpe(s, a, spec, sel, fs):
         if spec["mpe"] == "DF":
             s.mpe("a", sel_freq=list(sel), DF=0.02 * fs)
         elif spec["mpe"] == "DF12":
-            s.mpe("a", sel_freq=list(sel), DF1=0.02 * fs, DF2=0.06 * fs)
+            # (band half-widths that never put a band limit exactly on a spectral line for whole-number picks: the SDOF-bell band of the
+            # library includes / excludes a line by comparison, which is decided by the last bit when a limit coincides with a line)
+            s.mpe("a", sel_freq=list(sel), DF1=0.0213 * fs, DF2=0.0617 * fs)
         else:
             o = spec["kw"]["ordmax"] - 1
             s.mpe("a", sel_freq=list(sel), order=int(o), rtol=0.05)
@@ -288,6 +290,19 @@ def run_single_case(ctx, case, rng):
     if "br" in spec["kw"]:
         spec["kw"]["ordmax"] = min(spec["kw"]["ordmax"], spec["kw"]["br"] * nch - 1)
     sel = [float(f) for f in fn]
+    if tr.startswith("time") and spec["mpe"] in ("DF", "DF12"):
+        u = rng.random()
+        if spec["mpe"] == "DF" and case.get("k", 0) % 2 == 0:
+            # a "round" spectral grid (fs/nxseg = 0.05, 0.1, 0.2 Hz ...) with picks on the lines and a band of a whole number of lines
+            spec["kw"]["nxseg"] = int(rng.choice([500, 1000]))
+            df_ = fs / spec["kw"]["nxseg"]
+            sel = sorted({float(round(f / df_) * df_) for f in fn})
+            ctx.state("picks and band limits exactly on spectral lines (time-unit clause)")
+        elif u < 0.6:
+            si = sorted({int(round(f)) for f in fn if round(f) >= 1})
+            if si:
+                sel = si  # whole numbers of integer type in the base run; k*sel (floats) in the transformed run
+                ctx.state("integer-typed picks (time-unit clause)")
     t = draw_transform(rng, tr, nch)
     if tr.startswith("gain") and rng.random() < 0.5:
         # the base record stored as raw ADC counts (integer type); the scaled copy is a float array of the same samples times the gain
